@@ -128,6 +128,25 @@ func detachFromParent(node AssertionNode, whichChild int) {
 	node.SetParent(nil)
 }
 
+// isNilComparand reports whether comparing `x` with `y` is a nil check of `x`, i.e., whether `y` is the untyped nil
+// or a conversion of it to the very type of `x` (a "typed nil", e.g., `x == (*T)(nil)` for `x` of type `*T`). The
+// types must be identical for the latter: if `x` is of an interface type, `x == (*T)(nil)` compares it with a
+// non-nil interface value holding a nil pointer, which tells nothing about the nilness of `x` itself.
+func isNilComparand(pass *analysishelper.EnhancedPass, x, y ast.Expr) bool {
+	if pass.IsNil(y) {
+		return true
+	}
+	call, ok := ast.Unparen(y).(*ast.CallExpr)
+	if !ok || len(call.Args) != 1 || !pass.IsNil(call.Args[0]) {
+		return false
+	}
+	if tv, ok := pass.TypesInfo.Types[call.Fun]; !ok || !tv.IsType() {
+		return false
+	}
+	xType, yType := pass.TypesInfo.TypeOf(x), pass.TypesInfo.TypeOf(call)
+	return xType != nil && yType != nil && types.Identical(xType, yType)
+}
+
 // AddNilCheck takes the knowledge that an expression `expr` was evaluated as part of a conditional
 // and incorporates it into the assertion tree by producing non-nil or nil at expr, if expr is trackable
 //
@@ -212,7 +231,7 @@ func AddNilCheck(pass *analysishelper.EnhancedPass, expr ast.Expr) (trueCheck, f
 			//   - `nil != a`
 			op: token.EQL,
 			matcher: func(x, y ast.Expr) (RootFunc, RootFunc, bool) {
-				if !pass.IsNil(x) && pass.IsNil(y) {
+				if !pass.IsNil(x) && isNilComparand(pass, x, y) {
 					return noop, produceNegativeNilChecks(x), false
 				}
 				return noop, noop, true
